@@ -2156,6 +2156,8 @@ class Engine:
         if isinstance(op, ast.Pow):
             if conc:
                 return a ** b
+            if isinstance(b, int) and b == 2:
+                return specs.sqr(toz(a))          # x**2 stays symbolic: sqr(x), with linear facts only (no nonlinear arithmetic in the VCs)
             if isinstance(b, int) and 0 <= b <= 4:
                 r = 1
                 for _ in range(b):
@@ -3770,7 +3772,7 @@ def sf_mapcall(eng, node, g, n, m, index):
 
 
 SPEC_FUNCS = {
-    'combs2': lambda eng, node, lo, hi: VCombs2(toz(lo), toz(hi)), 'cvar': _wrap(specs.cvar), 'degsum': _wrap(specs.degsum), 'gadj': _wrap(specs.gadj), 'pvar': _wrap(specs.pvar), 'mhas': lambda eng, node, m, k: z3.Select(m.present, _term(k)), 'mget': lambda eng, node, m, k: z3.Select(m.val, _term(k)), 'glo': lambda eng, node, g, i: z3.Select(g.lo, toz(i)), 'ghi': lambda eng, node, g, i: z3.Select(g.hi, toz(i)),
+    'combs2': lambda eng, node, lo, hi: VCombs2(toz(lo), toz(hi)), 'cvar': _wrap(specs.cvar), 'degsum': _wrap(specs.degsum), 'gadj': _wrap(specs.gadj), 'pvar': _wrap(specs.pvar), 'isqf': _wrap(specs.isqf), 'sqr': _wrap(specs.sqr), 'mhas': lambda eng, node, m, k: z3.Select(m.present, _term(k)), 'mget': lambda eng, node, m, k: z3.Select(m.val, _term(k)), 'glo': lambda eng, node, g, i: z3.Select(g.lo, toz(i)), 'ghi': lambda eng, node, g, i: z3.Select(g.hi, toz(i)),
     'gsingle': lambda eng, node, g, i: z3.Select(g.single, toz(i)), 'cnb': _wrap(specs.cnb), 'isorted': _wrap(specs.isorted), 'nbj': _wrap(specs.nbj), 'nbv': _wrap(specs.nbv), 'lnbrs': _wrap(specs.lnbrs),
     'mapcall': sf_mapcall, 'mrow': _wrap(specs.mrow), 'mcol': _wrap(specs.mcol),
     'evnest': _wrap(specs.evnest), 'dedges': _wrap(specs.dedges),
@@ -4032,7 +4034,23 @@ def b_isgenerator(eng, node, v):
     return False
 
 
+class VFloatSqrt:
+    """math.sqrt(w) of an int: a float, not modelled; only int(..) of it is given a meaning (the uninterpreted isqf(w))"""
+
+    def __init__(self, arg):
+        self.arg = arg
+
+
+def lib_math_sqrt(eng, node, w):
+    if not (isinstance(w, int) or (is_z3(w) and z3.is_int(w))):
+        raise Unsupported('sqrt of a non-int')
+    eng.oblige('hazard', 'sqrt of a non-negative number (ValueError: math domain error)', toz(w) >= 0, node.lineno)
+    return VFloatSqrt(toz(w))
+
+
 def b_int(eng, node, v):
+    if isinstance(v, VFloatSqrt):
+        return specs.isqf(v.arg)
     if isinstance(v, int) or (is_z3(v) and z3.is_int(v)):
         return v
     if isinstance(v, VStr):
@@ -4532,6 +4550,8 @@ def lib_bisect_left(eng, node, row, x, lo=None, hi=None):
     return pos
 
 
+LIBRARY['math.sqrt'] = lib_math_sqrt
+LIBRARY['sqrt'] = lib_math_sqrt
 LIBRARY['bisect.bisect_left'] = lib_bisect_left
 LIBRARY['bisect.bisect_right'] = lib_bisect_right
 def lm_mclist_sort(eng, node, o):
